@@ -132,6 +132,7 @@ def run_life(ctx, fzf, sid, sc):
                 input_cmd=sc.get("input_cmd"), cmds=cmds)
     try:
         if not life.init():
+            life.marks.insert(0, (0, -1, {"ev": "req", "how": "error"}))     # fzf gave up while starting: the error exit path
             return life.finish(grace=20)
         for k in sc["startup"]:
             life.await_child(k)
@@ -232,6 +233,7 @@ def run_robust(ctx, fzf, sid, sc):
     t = life.t
     try:
         if not life.init():
+            life.mark({"ev": "req", "how": "error"}, off=0)     # fzf gave up while starting: the error exit path
             return life.finish()
         typed = False
         for i, st in enumerate(sc["steps"]):
